@@ -6,4 +6,9 @@ TEXTS = {
   "level": "Machine-checked proof: equal_comm (symmetry of == on all nested well-formed values), neq_not_eq, binop_no_panic (no operator application reaches a Go panic), trichotomy, le_iff_lt_or_eq, lt_flip are Lean theorems quantified over all values and all float arithmetic instances, stated about definitions that goextract regenerates from the Go source on every run; a source edit changes the Lean term and the proof is re-checked.",
   "note": "Trusted: Lean kernel; goextract translator (fail-closed subset); hand model Model/Ops.lean for Array/Map recursion and left-operand dispatch, tied by the `ops` stream (pool^2 x 15 operators exhaustive + random nested values, model vs Object.BinaryOp/Equal and vs the VM); float arithmetic abstract (FloatOps), IEEE comparison defined on bit patterns. SyncMap/RuntimeError/user types outside the modelled value set.",
  },
+ "C17": {
+  "technique": "Lean 4 theorems over a hand model of stdlib/json (encoder with escape tables regenerated from tables.go, scanner automaton, Compact, Indent) against an RFC 8259 recogniser; two-oracle differential stream: model vs implementation and implementation vs encoding/json on generated values and documents",
+  "level": "Machine-checked proof (partial): escape_valid (every escaped byte string, incl. invalid UTF-8 and both HTML settings, is one JSON string token), marshal_valid_partial / marshal_valid_rawfree (Marshal output is a JSON text for every value, nesting and option wrapper; side conditions: not a bare top-level error value, raw messages compact to a value), marshal_unsupported_is_error (a value holding an object without encoder never gets a document), valid_no_panic / indent_no_panic (the scanner automaton never reaches its index/slice panic sites). The scanner (Valid), Compact, Indent and Unmarshal halves are tied by differential testing against the model, the RFC recogniser and encoding/json, not proved.",
+  "note": "Partial. Trusted: Lean kernel; Spec/Json recogniser (checked against encoding/json.Valid by the stream); hand models tied by stream `json`; jsontables generator; strconv.AppendFloat abstract under hypothesis JsonLib.OK (checked by the driver). Open finding: Marshal of a bare error value returns the empty document (pinned by module_test.go), refuted full statement marshal_full_false. Not proved: scanner_sound/complete, compact/indent validity, round trip (decoder not modelled).",
+ },
 }
